@@ -119,6 +119,8 @@ def model_op(opl):
     t = opl.split()
     if t[0] == "cpl":
         return "cpl %s %s" % (t[1], tobin(t[2]))
+    if t[0] in ("cinitsrc", "cinitcdictadv", "cinitadv", "cresetcs"):     # the pledged size is the last argument
+        return " ".join(t[:-1] + [tobin(t[-1])])
     if t[0] in ("cover", "fixture"):      # direct rules without a model
         return "nop"
     return opl
@@ -345,8 +347,8 @@ class Oracle:
                             return "windowLog %d not in force: frame window %s" % (w, rr[5])
                 if k0 == "csimple" and cls == "ok" and rr[1:5] != ["0", "1", "0", "0"]:
                     return "simple API frame header %s is affected by advanced parameters" % rr[1:5]
-                if k0 == "csimple" and post != pre:
-                    return "simple API changed the context"
+                if k0 == "csimple" and cls == "ok" and (qstage != "0" or qdict != pdict):
+                    return "simple API changed the dictionary / left a streaming session open (stage %s, dictionary %s -> %s)" % (qstage, pdict, qdict)
                 return None
             if k0 in ("cload", "crefcdict", "crefprefix", "capply"):
                 if mid and (cls != "stage" or post != pre):
